@@ -7,7 +7,8 @@
     it is checked per run against the reference semantics in
     harness/gen_wt.py on generated libraries and pages. *)
 From Coq Require Import List NArith Bool Arith.
-From WTP Require Import Base.Str Model.ArgViews Model.Expand Proofs.ExpandProofs Model.Body Proofs.BodyProofs.
+From Coq Require Import String.
+From WTP Require Import Base.Str Model.ArgViews Model.Expand Proofs.ExpandProofs Model.Body Proofs.BodyProofs Gen.GenBody.
 Import ListNotations.
 Open Scope N_scope.
 
@@ -53,3 +54,16 @@ Theorem c04_includable_part :
   forall segs, Forall seg_clean segs -> template_to_body (render segs) = includable segs.
 Proof. exact template_to_body_includable. Qed.
 Print Assumptions c04_includable_part.
+
+
+(* The passes Model/Body.v models are the passes the current source has: Gen/GenBody.v is regenerated from
+   Wtp._template_to_body on every run (translate/body.py refuses any other statement in that function). *)
+Theorem c04_body_passes_are_the_modelled_ones :
+  passes = [ (PSub, "(?s)<!--.*?-->");
+             (PSub, "(?is)<noinclude\s*>.*?</noinclude\s*>");
+             (PSub, "(?is)<noinclude\s*>.*");
+             (PSub, "(?s)<!--.*");
+             (PGroups, "(?is)<onlyinclude\s*>(.*?)</onlyinclude\s*>|<onlyinclude\s*/>");
+             (PSub, "(?is)<\s*(/\s*)?includeonly\s*(/\s*)?>") ]%string.
+Proof. reflexivity. Qed.
+Print Assumptions c04_body_passes_are_the_modelled_ones.
